@@ -7,7 +7,7 @@ import logging
 KINDS = {"ProgramNode": "KProgram", "MarkNode": "KMark", "BlockNode": "KBlock", "EndBlockNode": "KEndBlock",
          "EndBlocksNode": "KEndBlocks", "WatchNode": "KWatch", "AlarmNode": "KAlarm", "UodCommandNode": "KCmd",
          "EngineCommandNode": "KCmd", "NotifyNode": "KSimple", "SimulateNode": "KSimple", "SimulateOffNode": "KSimple",
-         "BatchNode": "KMark"}
+         "BatchNode": "KMark", "InjectedNode": "KInjected"}
 
 
 def node_table(prog):
